@@ -2981,7 +2981,11 @@ namespace Clipper2Lib {
     for (auto split : *splits)
     {
       if (!split->pts && split->splits &&
-        CheckSplitOwner(outrec, split->splits)) return true; //#942
+        split->recursive_split != outrec)
+      {
+        split->recursive_split = outrec; // prevent infinite loops
+        if (CheckSplitOwner(outrec, split->splits)) return true; //#942
+      }
       split = GetRealOutRec(split);
       if (!split || split == outrec || split->recursive_split == outrec) continue;
       split->recursive_split = outrec; // prevent infinite loops
